@@ -132,3 +132,697 @@ def r8_attach_iff_tracked(facts):
                  % (len(rows), len(variables)), detail)
     c.count("truth-table rows evaluated", total_rows)
     return c
+
+
+# ------------------------------------------------------------------ R21
+
+CTOR_PREFIX = "<corgi::array::Array as core::convert::From<("
+
+
+def r21_fresh_parameter(facts):
+    """R21: the value installed over a parameter is a fresh, graph-free, same-shape, tracked array."""
+    c = Ctx("R21", facts, "Optimizer::update installs fresh, graph-free, same-shape, tracked parameters")
+    impls = [b for b in facts.fns() if b.get("impl_trait_def") == "corgi::optimizer::Optimizer" and b.get("name") == "update"]
+    c.floor("Optimizer::update implementations", len(impls), 1)
+    n_stores = 0
+    for u in impls:
+        for b in facts.nested(u):
+            binds = F.bindings_of(facts.root(b))
+            ptypes = {v: ty for v, _, ty, _ in _all_bindings(facts, b)}
+            for n in walk(facts.root(b)):
+                if n.get("k") == "Call" and callee(n) in ("core::mem::replace", "core::mem::swap", "core::mem::take") and n["args"] \
+                        and ARRAY in (n["args"][0].get("ty") or ""):
+                    c.unk("store:%s#mem" % b["def"], loc(b, n), "parameter replaced through %s: provenance of the new value not analysed" % callee(n))
+                if n.get("k") not in ("Assign", "AssignOp"):
+                    continue
+                lhs = strip(n["l"])
+                if lhs.get("ty") != ARRAY:
+                    continue
+                pv = var_of(lhs)
+                if lhs.get("k") != "Deref" or not pv or ptypes.get(pv) != "&mut " + ARRAY:
+                    continue
+                n_stores += 1
+                inst = "store:%s" % b["def"]
+                where = loc(b, n)
+                if n["k"] == "AssignOp":
+                    c.bad(inst, where, "parameter updated in place with a compound assignment")
+                    continue
+                rhs = strip(n["r"])
+                if not (rhs.get("k") == "Call" and resolved(rhs) == "corgi::array::Array::tracked"):
+                    if rhs.get("k") == "Call" and (resolved(rhs) or "").startswith(CTOR_PREFIX):
+                        c.bad(inst, where, "the new parameter is not marked tracked(): after the first update no parameter is tracked, "
+                              "later passes store nothing and later updates are no-ops")
+                    else:
+                        c.bad(inst, where, "the value installed over the parameter is not `Array::from((dims, values)).tracked()`: %s "
+                              "(a parameter computed by array operations carries a graph that grows every iteration)" % show(rhs)[:120])
+                    continue
+                inner = strip(rhs["args"][0])
+                if not (inner.get("k") == "Call" and (resolved(inner) or "").startswith(CTOR_PREFIX)):
+                    c.bad(inst, where, "tracked() is applied to %s, not to a freshly constructed array" % show(inner)[:120])
+                    continue
+                tup = strip(inner["args"][0])
+                if tup.get("k") != "Tuple" or len(tup["fields"]) != 2:
+                    c.unk(inst, where, "constructor argument is not a (dimensions, values) tuple")
+                    continue
+                d = peel(tup["fields"][0])
+                ok_d = False
+                while d.get("k") == "Call" and callee(d) in ("alloc::slice::<impl [T]>::to_vec", "core::clone::Clone::clone", "alloc::borrow::ToOwned::to_owned"):
+                    d = peel(d["args"][0])
+                if d.get("k") == "Call" and resolved(d) == "corgi::array::Array::dimensions" and var_of(d["args"][0]) == pv:
+                    ok_d = True
+                else:
+                    r_, ch = field_chain(d)
+                    if ch == ["dimensions"] and var_of(r_) == pv:
+                        ok_d = True
+                if not ok_d:
+                    c.bad(inst, where, "the new parameter's dimensions are not the old parameter's own dimensions: %s" % show(tup["fields"][0])[:100])
+                    continue
+                vty = tup["fields"][1].get("ty", "")
+                if "corgi::array::Array" in vty:
+                    c.unk(inst, where, "values component has an array type")
+                    continue
+                c.ok(inst, where, "*%s = Array::from((%s.dimensions().to_vec(), <fresh Vec>)).tracked(): fresh slots, no children, no derivative, tracked"
+                     % (pv.split("#")[0], pv.split("#")[0]))
+    c.floor("stores through &mut Array parameters in update", n_stores, 1)
+    return c
+
+
+def _all_bindings(facts, b):
+    out = []
+    for p in facts.params(b):
+        if p.get("pat"):
+            out.extend(F.pat_bindings(p["pat"]))
+    for n in walk(facts.root(b)):
+        k = n.get("k")
+        if k == "Block":
+            for s in n["stmts"]:
+                if s["s"] == "let":
+                    out.extend(F.pat_bindings(s["pat"]))
+        elif k == "Match":
+            for a in n["arms"]:
+                out.extend(F.pat_bindings(a["pat"]))
+        elif k == "Let":
+            out.extend(F.pat_bindings(n["pat"]))
+    return out
+
+
+# ------------------------------------------------------------------ R13
+
+def r13_linearity(facts):
+    """R13: every adjoint slot is linear-homogeneous in the incoming adjoint; the engine's delta path is linear in the seed."""
+    from . import lineval as LV
+    from . import engine_rules as ER
+    c = Ctx("R13", facts, "adjoint slots are linear-homogeneous in the incoming adjoint; engine delta path linear in the seed")
+    bws = [b for b in facts.closures() if F.is_backward_closure(b)]
+    c.floor("backward closures", len(bws), 17)
+    analysed = set()
+    n_slots = 0
+    for b in bws:
+        where = "%s:%d" % (F.rel(b["file"]), b["sp"][0])
+        inst = "closure:%s" % b["def"]
+        try:
+            r, lin = LV.type_backward_closure(facts, b)
+        except RecursionError:
+            c.unk(inst, where, "analysis recursion limit")
+            continue
+        analysed |= lin.analysed_fns
+        if r is None or r.k != "vec":
+            c.unk(inst, where, "closure result is not a literal vector of slots (typed %r)" % r)
+            continue
+        for msg in lin.control_on_adjoint:
+            c.bad(inst + "#control", where, "control flow or indexing depends on the adjoint: %s" % msg)
+        for i, slot in enumerate(r.items):
+            n_slots += 1
+            sinst = "%s#slot%d" % (inst, i)
+            slot = lin.read(slot)
+            if slot.k == "opt":
+                if slot.present is False:
+                    c.ok(sinst, where, "slot is None", nontrivial=False)
+                    continue
+                cls = LV.scalar(slot.inner) if slot.inner is not None else LV.N
+            else:
+                cls = LV.scalar(slot)
+            if cls == LV.L:
+                c.ok(sinst, where, "slot %d : L (linear-homogeneous in the incoming adjoint)" % i)
+            elif cls == LV.C:
+                c.bad(sinst, where, "slot %d does not depend on the incoming adjoint (typed C): the chain rule factor x is missing, "
+                      "the gradient is right only when this operation is the last one and the seed is all ones" % i)
+            elif cls == LV.Z:
+                c.bad(sinst, where, "slot %d is identically zero (typed Z): the operand's gradient is discarded" % i)
+            else:
+                if lin.notes:
+                    c.unk(sinst, where, "slot %d could not be typed L: %s" % (i, "; ".join(lin.notes)[:300]))
+                else:
+                    c.bad(sinst, where, "slot %d is not linear in the incoming adjoint (typed N: product of two adjoint-dependent values, "
+                          "an added constant, or a non-linear function of the adjoint)" % i)
+    c.floor("adjoint slots typed", n_slots, 22)
+    c.count("crate functions analysed through their bodies", len(analysed))
+    c.note("functions analysed through their bodies: " + ", ".join(sorted(x.split("::")[-1] for x in analysed)))
+    c.note("summaries: " + "; ".join("%s: %s" % kv for kv in LV.SUMMARY_REASONS.items()))
+
+    # ---- engine: the delta path of Array::backward
+    m = ER.PassModel(facts)
+    if not m.ok:
+        c.floor("Array::backward model", 0, 1)
+        return c
+    bw = m.bw
+    sites = [s for s in ER.invocation_sites(facts) if s[0]["def"] == bw["def"]]
+    pass_delta = None
+    if len(sites) == 1:
+        inv = sites[0][1]
+        tup = strip(inv["args"][1]) if len(inv["args"]) > 1 else None
+        third = tup["fields"][2] if tup and tup.get("k") == "Tuple" and len(tup["fields"]) == 3 else None
+        pass_delta = var_of(third) if third is not None else None
+    lvars = {}
+
+    def seedlin(e, depth=0):
+        """is e linear in the seed (given: pending deltas and closure slots are)"""
+        e = peel(e)
+        if depth > 12:
+            return False
+        k = e.get("k")
+        if k in ("VarRef", "UpvarRef"):
+            v = e["v"]
+            bnd = m.binds.get(v)
+            if bnd is None:
+                return False
+            if bnd[0] == "let":
+                return bnd[1] is not None and seedlin(bnd[1], depth + 1)
+            _, scrut, path, owner = bnd
+            n_, fld = m.slot_owner(scrut)
+            if n_ and fld == m.f_delta:
+                return True                      # pending delta: linear by the induction hypothesis
+            if var_of(scrut) == m.seedv:
+                return True                      # the seed itself
+            # loop variable over the closure's result vector (through the for-loop desugaring)
+            if sites and from_invocation(v, set()):
+                return pass_delta is not None and bool(third_is_linear)
+            return False
+        if k == "Call":
+            r = resolved(e)
+            if r in ("corgi::array::Array::flatten_to", "<corgi::array::Array as core::clone::Clone>::clone"):
+                return seedlin(e["args"][0], depth + 1)
+            if r == "corgi::array::arithmetic::<impl core::ops::arith::Add<&corgi::array::Array> for &corgi::array::Array>::add":
+                return seedlin(e["args"][0], depth + 1) and seedlin(e["args"][1], depth + 1)
+            if (r or "").startswith(CTOR_PREFIX):
+                # the default seed (ones of the root's shape): it *is* the seed of this pass
+                return True
+            return False
+        if k in ("If", "Match", "Block"):
+            if k == "If":
+                br = [e["then"], e.get("else")]
+            elif k == "Match":
+                br = [a["body"] for a in e["arms"]]
+            else:
+                br = [e.get("e")]
+            return all(b is not None and seedlin(b, depth + 1) for b in br)
+        return False
+
+    def from_invocation(v, seen):
+        """is variable v bound (through patterns / iteration) to elements of the derivative closure's result"""
+        if v in seen or len(seen) > 12:
+            return False
+        seen.add(v)
+        bnd = m.binds.get(v)
+        if bnd is None:
+            return False
+        src = bnd[1]
+        if src is None:
+            return False
+        if any(x is sites[0][1] for x in walk(src)):
+            return True
+        if bnd[0] == "let":
+            # only iterator adaptors / moves may sit between the result vector and its elements
+            inner = peel(src)
+            if inner.get("k") not in ("VarRef", "UpvarRef"):
+                return False
+        for x in walk(src):
+            if x.get("k") == "Call" and callee(x) not in (
+                    "core::iter::traits::collect::IntoIterator::into_iter", "core::iter::traits::iterator::Iterator::enumerate",
+                    "core::iter::traits::iterator::Iterator::next", "core::iter::traits::iterator::Iterator::zip",
+                    "core::slice::<impl [T]>::iter", "core::ops::deref::Deref::deref"):
+                return False
+        return any(from_invocation(x["v"], seen) for x in walk(src) if x.get("k") in ("VarRef", "UpvarRef"))
+
+    third_is_linear = False
+    if pass_delta is not None:
+        third_is_linear = True      # provisional, to break the cycle below
+        third_is_linear = seedlin({"k": "VarRef", "v": pass_delta, "ty": ""})
+    c.check(bool(third_is_linear), "engine:closure-argument", loc(bw, sites[0][1]) if sites else "-",
+            "the adjoint handed to the derivative closure is the pass's delta (pending delta, supplied seed, or default ones)",
+            "the adjoint handed to the derivative closure is not the pass's delta")
+    for n, ctx, owner, val in m.delta_sets():
+        payload = ER._some_payload(val)
+        arm = ER._arm_kind(ctx)
+        if payload is None:
+            continue
+        c.check(seedlin(payload), "engine:delta-%s" % arm, loc(bw, n),
+                "value delivered to a child's pending delta is a sum of reduced closure slots / pending deltas: linear in the seed",
+                "value delivered to a child's pending delta is not linear in the seed: %s" % show(payload)[:120])
+    for n, ctx, owner, val in m.gradient_stores():
+        payload = ER._some_payload(val)
+        arm = ER._arm_kind(ctx)
+        if payload is None:
+            continue
+        p = peel(payload)
+        if arm == "Some":
+            ok = p.get("k") == "Call" and resolved(p) == ER.ADD and (seedlin(p["args"][0]) or seedlin(p["args"][1]))
+            c.check(ok, "engine:gradient-Some", loc(bw, n), "this pass's contribution to an occupied gradient slot is linear in the seed (old + delta)",
+                    "contribution added to an occupied gradient slot is not linear in the seed: %s" % show(payload)[:120])
+        else:
+            c.check(seedlin(payload), "engine:gradient-None", loc(bw, n), "gradient stored into an empty slot is linear in the seed",
+                    "gradient stored into an empty slot is not linear in the seed: %s" % show(payload)[:120])
+    return c
+
+
+# ------------------------------------------------------------------ R12
+
+R12_EXCEPTIONS = {
+    ("roll_blocks_with", "image_dimensions"):
+        "equals the dimensions of the adjoint's argument: the derivative (unroll_blocks) reads them from the delta itself",
+    ("roll_blocks_with", "accumulate"):
+        "selects between the adjoint (sum) and the inverse (overwrite) of unrolling; the recorded derivative is exact for the adjoint "
+        "role, the only one library code uses (the inverse role is reached from tests only)",
+}
+
+
+def _scalarish(ty, fl):
+    ty = ty.strip()
+    if ty.startswith("&"):
+        ty = ty.lstrip("&").strip()
+    if ty in (fl, "usize", "bool", "isize", "u32", "u64", "i32", "i64"):
+        return True
+    if ty.startswith("(") and ty.endswith(")"):
+        parts = _split_top(ty[1:-1])
+        return bool(parts) and all(_scalarish(p, fl) for p in parts)
+    return False
+
+
+def _split_top(s):
+    out, depth, cur = [], 0, ""
+    for ch in s:
+        if ch in "(<[":
+            depth += 1
+        elif ch in ")>]":
+            depth -= 1
+        if ch == "," and depth == 0:
+            out.append(cur.strip())
+            cur = ""
+        else:
+            cur += ch
+    if cur.strip():
+        out.append(cur.strip())
+    return out
+
+
+def _taint_sources(facts, b):
+    """{label: set(vars)}: scalar parameters (or scalar components of tuple parameters)."""
+    fl = facts.float
+    out = {}
+    for p in facts.params(b):
+        if not p.get("pat"):
+            continue
+        ty = p["ty"]
+        for v, name, vty, path in F.pat_bindings(p["pat"]):
+            if _scalarish(vty, fl):
+                out.setdefault(name, set()).add(v)
+            elif vty.startswith("(") and ARRAY in vty and any(_scalarish(x, fl) for x in _split_top(vty[1:-1])):
+                out.setdefault(name, set()).add(("tuple", v))
+    return out
+
+
+def _propagate(facts, b, seeds):
+    """flow-insensitive intra-procedural taint over let/destructuring bindings of body b"""
+    fl = facts.float
+    tainted = set()
+    tuple_vars = set()
+    for s in seeds:
+        if isinstance(s, tuple):
+            tuple_vars.add(s[1])
+        else:
+            tainted.add(s)
+    root = facts.root(b)
+    binds = []
+    for n in walk(root):
+        if n.get("k") == "Block":
+            for s in n["stmts"]:
+                if s["s"] == "let" and s.get("init") is not None:
+                    binds.append((s["pat"], s["init"]))
+        elif n.get("k") == "Match":
+            for a in n["arms"]:
+                binds.append((a["pat"], n["scrutinee"]))
+        elif n.get("k") == "Let":
+            binds.append((n["pat"], n["e"]))
+    changed = True
+    while changed:
+        changed = False
+        for pat, init in binds:
+            vars_in = {x["v"] for x in walk(init) if x.get("k") in ("VarRef", "UpvarRef")}
+            # closures in the initialiser: their captures count as mentions
+            for x in walk(init):
+                if x.get("k") == "Closure":
+                    cb = facts.body(x["closure"])
+                    for cap in (cb or {}).get("captures", []):
+                        if cap.get("v"):
+                            vars_in.add(cap["v"])
+            hit = bool(vars_in & tainted)
+            from_tuple = bool(vars_in & tuple_vars)
+            if not hit and not from_tuple:
+                continue
+            for v, name, vty, path in F.pat_bindings(pat):
+                if ARRAY in vty:
+                    continue
+                if from_tuple and not hit and not _scalarish(vty, fl):
+                    continue
+                if v not in tainted:
+                    tainted.add(v)
+                    changed = True
+    return tainted
+
+
+def r12_param_dependence(facts):
+    """R12: every value-relevant scalar parameter of an operation reaches its backward closure."""
+    c = Ctx("R12", facts, "every value-relevant scalar parameter reaches the derivative")
+    ctors = op_constructors(facts)
+    ctor_defs = {b["def"] for b in ctors}
+    n = 0
+    fl = facts.float
+    for b in ctors:
+        sources = _taint_sources(facts, b)
+        if not sources:
+            continue
+        nested = [x for x in facts.nested(b) if x is not b]
+        bws = [x for x in nested if F.is_backward_closure(x) and x["parent"] == b["def"]]
+        others = [x for x in nested if not F.is_backward_closure(x) and not any(x["def"].startswith(w["def"] + "::") for w in bws)]
+        root = facts.root(b)
+        for label, seeds in sorted(sources.items()):
+            tainted = _propagate(facts, b, seeds)
+            where = "%s:%d" % (F.rel(b["file"]), b["sp"][0])
+            inst = "param:%s#%s" % (b["def"], label)
+            # ---- is the parameter value-relevant ?
+            reasons = []
+            for x in others:
+                produces = F.is_sliced_closure(x, facts) or x.get("closure_output") == fl
+                capv = {cap.get("v") for cap in x.get("captures", [])}
+                if produces and capv & tainted:
+                    reasons.append("captured by the value-producing closure %s" % x["def"].split("::")[-1])
+            for m in walk(root):
+                if m.get("k") != "Call":
+                    continue
+                cal = m.get("callee") or {}
+                r = resolved(m)
+                if r == SLICED_OP:
+                    for i in (5, 6):
+                        if i < len(m["args"]) and ({x["v"] for x in walk(m["args"][i]) if x.get("k") in ("VarRef", "UpvarRef")} & tainted):
+                            reasons.append("passed to sliced_op as %s" % ("op_dimension_count" if i == 5 else "flatten_count"))
+                elif cal.get("resolved_local"):
+                    for a in m["args"]:
+                        if isinstance(a, dict) and a.get("ty") == fl and ({x["v"] for x in walk(a) if x.get("k") in ("VarRef", "UpvarRef")} & tainted):
+                            reasons.append("passed as a Float to %s" % r.split("::")[-1])
+            for m in walk(root):
+                if m.get("k") in ("Assign", "AssignOp"):
+                    lhs = strip(m["l"])
+                    if lhs.get("k") in ("Index",) or (lhs.get("k") == "Deref"):
+                        if fl == (lhs.get("ty") or ""):
+                            vs = {x["v"] for x in walk(m) if x.get("k") in ("VarRef", "UpvarRef")}
+                            if vs & tainted:
+                                reasons.append("taints a store into a Float buffer in the function body")
+            if not reasons:
+                c.ok(inst, where, "parameter `%s` only reaches shapes/bookkeeping: not value-relevant" % label, nontrivial=False)
+                continue
+            n += 1
+            key = (b.get("name"), label)
+            if key in R12_EXCEPTIONS:
+                c.ok(inst, where, "exception table: %s" % R12_EXCEPTIONS[key])
+                continue
+            if not bws:
+                # attached closure comes from elsewhere (forwarder): delegation
+                c.unk(inst, where, "value-relevant parameter `%s` in a constructor whose backward closure is not defined here" % label)
+                continue
+            missing = []
+            for w in bws:
+                capv = {cap.get("v") for cap in w.get("captures", [])}
+                if not (capv & tainted):
+                    missing.append(w)
+            if missing:
+                # delegation: forwarded to another operation constructor ?
+                delegated = False
+                for m in walk(root):
+                    if m.get("k") == "Call" and resolved(m) in ctor_defs and resolved(m) != b["def"]:
+                        for a in m["args"]:
+                            if {x["v"] for x in walk(a) if x.get("k") in ("VarRef", "UpvarRef")} & tainted:
+                                delegated = True
+                if delegated:
+                    c.ok(inst, where, "`%s` is forwarded to another operation constructor (delegation)" % label)
+                    continue
+                for w in missing:
+                    c.bad(inst, "%s:%d" % (F.rel(w["file"]), w["sp"][0]),
+                          "parameter `%s` affects the forward values (%s) but nothing derived from it is captured by the backward closure %s "
+                          "(captures: %s): the derivative cannot depend on it"
+                          % (label, "; ".join(sorted(set(reasons))), w["def"].split("::")[-1],
+                             ", ".join(cap["var"] for cap in w.get("captures", [])) or "none"))
+            else:
+                c.ok(inst, where, "`%s` is value-relevant (%s) and reaches the backward closure (captured: %s)"
+                     % (label, "; ".join(sorted(set(reasons)))[:120],
+                        ", ".join(sorted({cap["var"] for w in bws for cap in w.get("captures", []) if cap.get("v") in tainted}))))
+    c.floor("value-relevant scalar parameters of operation constructors", n, 9)
+    return c
+
+
+# ------------------------------------------------------------------ R15
+
+def _index_of(lhs):
+    """(buffer expr, index expr) of an element place, or (expr, None) for `*r`"""
+    l = strip(lhs)
+    if l.get("k") == "Deref":
+        inner = strip(l["e"])
+        if inner.get("k") == "Call" and callee(inner) in ("core::ops::index::IndexMut::index_mut", "core::ops::index::Index::index"):
+            return inner["args"][0], inner["args"][1]
+        if inner.get("k") == "Index":
+            return inner["e"], inner["i"]
+        return inner, None
+    if l.get("k") == "Index":
+        return l["e"], l["i"]
+    if l.get("k") == "Call" and callee(l) in ("core::ops::index::IndexMut::index_mut", "core::ops::index::Index::index"):
+        return l["args"][0], l["args"][1]
+    return l, None
+
+
+def _range_end(it):
+    """for `a..b` return (start literal, end expr)"""
+    it = strip(it)
+    if it.get("k") == "Adt" and it["adt"] == "core::ops::range::Range":
+        f = {x["name"]: x["e"] for x in it["fields"]}
+        return F.lit_value(f.get("start")), f.get("end")
+    return None, None
+
+
+def _aliases(root):
+    env = {}
+    for n in walk(root):
+        if n.get("k") == "Block":
+            for s in n["stmts"]:
+                if s["s"] == "let" and s["pat"].get("k") == "Binding" and s.get("init") is not None:
+                    env[s["pat"]["v"]] = s["init"]
+    return env
+
+
+def _sym(e, env, depth=0):
+    """normalised rendering of an index-arithmetic expression with let aliases resolved"""
+    e = peel(e)
+    if depth < 6 and e.get("k") in ("VarRef",) and e["v"] in env:
+        init = peel(env[e["v"]])
+        if init.get("k") in ("VarRef", "UpvarRef", "Binary", "Literal"):
+            return _sym(init, env, depth + 1)
+    if e.get("k") in ("VarRef", "UpvarRef"):
+        return e["v"].split("#")[0] + "#" + e["v"].split("#")[1]
+    if e.get("k") == "Literal":
+        return str(F.lit_value(e))
+    if e.get("k") == "Binary":
+        a, b = _sym(e["l"], env, depth + 1), _sym(e["r"], env, depth + 1)
+        if e["op"] in ("Mul", "Add") and b < a:
+            a, b = b, a
+        return "(%s %s %s)" % (a, e["op"], b)
+    return show(e)[:60]
+
+
+def _terms(e, env, depth=0):
+    """flatten a sum into [(coefficient symbol or '1', variable)]; None if not affine in plain variables"""
+    e = peel(e)
+    if depth < 6 and e.get("k") == "VarRef" and e["v"] in env:
+        init = peel(env[e["v"]])
+        if init.get("k") == "Binary":
+            return _terms(init, env, depth + 1)
+    if e.get("k") in ("VarRef", "UpvarRef"):
+        return [("1", e["v"])]
+    if e.get("k") == "Binary" and e["op"] == "Add":
+        a = _terms(e["l"], env, depth + 1)
+        b = _terms(e["r"], env, depth + 1)
+        if a is None or b is None:
+            return None
+        return a + b
+    if e.get("k") == "Binary" and e["op"] == "Mul":
+        l, r = peel(e["l"]), peel(e["r"])
+        # coefficient * (sub-sum)  or  coefficient * var
+        for coef, rest in ((l, r), (r, l)):
+            sub = _terms(rest, env, depth + 1)
+            if sub is not None and len(sub) >= 1 and not _mentions_any(coef, [v for _, v in sub]):
+                cs = _sym(coef, env)
+                return [(cs if c0 == "1" else "(%s Mul %s)" % tuple(sorted([cs, c0])), v) for c0, v in sub]
+        return None
+    return None
+
+
+def _mentions_any(e, vs):
+    return any(x.get("k") in ("VarRef", "UpvarRef") and x["v"] in vs for x in walk(e))
+
+
+def _mixed_radix(idx, loops, env):
+    """index = sum c_j * v_j over exactly the loop variables, with c_1 = 1 and c_{j+1} = c_j * range_j"""
+    terms = _terms(idx, env)
+    if terms is None:
+        return False, "index is not a sum of loop variables with constant coefficients"
+    lv = {}
+    for l in loops:
+        if len(l["vars"]) != 1 or l.get("iter") is None:
+            return False, "a loop of the nest does not bind a single range variable"
+        start, end = _range_end(l["iter"])
+        if start != 0 or end is None:
+            return False, "a loop of the nest is not `0..n`"
+        lv[l["vars"][0]] = _sym(end, env)
+    tv = [v for _, v in terms]
+    if sorted(tv) != sorted(lv):
+        return False, "index does not use each loop variable of the nest exactly once (%s vs loops %s)" % (
+            [v.split("#")[0] for v in tv], [v.split("#")[0] for v in lv])
+    coef = {v: c for c, v in terms}
+    # order variables by coefficient chain starting from the unit coefficient
+    remaining = dict(coef)
+    cur = "1"
+    order = []
+    while remaining:
+        nxt = [v for v, cc in remaining.items() if cc == cur]
+        if len(nxt) != 1:
+            return False, "coefficients do not form a mixed-radix chain (looking for coefficient %s among %s)" % (cur, remaining)
+        v = nxt[0]
+        order.append(v)
+        del remaining[v]
+        r = lv[v]
+        cur = r if cur == "1" else "(%s Mul %s)" % tuple(sorted([r, cur]))
+    return True, "mixed-radix affine index over loops %s" % [v.split("#")[0] for v in order]
+
+
+def _unit_counter(v, body_root, store_lhs):
+    """v is initialised to 0 and its only update is `v += 1` in the block that contains the store"""
+    inits = []
+    updates = []
+    for n in walk(body_root):
+        if n.get("k") == "Block":
+            for s in n["stmts"]:
+                if s["s"] == "let" and s["pat"].get("k") == "Binding" and s["pat"]["v"] == v:
+                    inits.append(s.get("init"))
+        if n.get("k") in ("Assign", "AssignOp") and var_of(n["l"]) == v and strip(n["l"]).get("k") == "VarRef":
+            updates.append(n)
+        if n.get("k") == "Borrow" and n.get("bk") == "mut" and var_of(n["e"]) == v and strip(n["e"]).get("k") == "VarRef":
+            updates.append(n)
+    if len(inits) != 1 or F.lit_value(inits[0]) != 0:
+        return False, "index variable is not initialised to 0 once"
+    if len(updates) != 1 or updates[0].get("k") != "AssignOp" or not str(updates[0].get("op", "")).startswith("Add") \
+            or F.lit_value(updates[0]["r"]) != 1:
+        return False, "index variable has updates other than a single `+= 1`"
+    # same block as the store
+    for n in walk(body_root):
+        if n.get("k") == "Block":
+            has_store = False
+            has_update = False
+            for s in n["stmts"]:
+                e = s.get("e") if s["s"] == "expr" else s.get("init")
+                if e is None:
+                    continue
+                se = strip(e)
+                if se.get("k") in ("Assign", "AssignOp") and strip(se["l"]) is store_lhs:
+                    has_store = True
+                if se is updates[0]:
+                    has_update = True
+            if has_store:
+                return (True, "unit-step counter advanced once per store") if has_update else (False, "counter is not advanced in the block of the store")
+    return False, "store statement not found in a block"
+
+
+def r15_accumulate_on_scatter(facts):
+    """R15: element stores of adjoint data accumulate, or their index is provably injective over the loop nest."""
+    from . import lineval as LV
+    from . import engine_rules as ER
+    c = Ctx("R15", facts, "adjoint scatters accumulate or are provably injective")
+    bws = [b for b in facts.closures() if F.is_backward_closure(b)]
+    c.floor("backward closures", len(bws), 17)
+    sites = {}
+    roles = {}
+    def collect(lin, origin):
+        for s in lin.adjoint_stores:
+            key = (s["body"], id(s["lhs"]), s["op"])
+            if key not in sites:
+                sites[key] = s
+                roles[key] = set()
+            roles[key].add(origin)
+    for b in bws:
+        try:
+            r, lin = LV.type_backward_closure(facts, b)
+        except RecursionError:
+            c.unk("closure:%s" % b["def"], "-", "analysis recursion limit")
+            continue
+        collect(lin, b["def"])
+    # the engine reduces deltas with flatten_to: adjoint role as well
+    for b in facts.fns():
+        if b.get("impl_self") == ARRAY and b.get("name") == "flatten_to":
+            lin = LV.Lin(facts)
+            lin.local_fn(b, [LV.tL, LV.tC])
+            collect(lin, "engine:" + b["def"])
+    n = 0
+    seen_inst = {}
+    for key, s in sites.items():
+        body = facts.body(s["body"])
+        n += 1
+        buf, idx = _index_of(s["lhs"])
+        bname = (var_of(buf) or "?").split("#")[0]
+        inst = "store:%s#%s" % (s["body"], bname)
+        k = seen_inst.get(inst, 0)
+        seen_inst[inst] = k + 1
+        if k:
+            inst = "%s.%d" % (inst, k)
+        where = loc(body, s["lhs"])
+        role = "reached from %s" % ", ".join(sorted(x.split("::")[-2] + "::" + x.split("::")[-1] for x in roles[key]))[:160]
+        if s["op"] in ("Add", "Sub"):
+            c.ok(inst, where, "accumulating store (`%s=`) of adjoint data; %s" % ("+" if s["op"] == "Add" else "-", role))
+            continue
+        if s["op"] is not None:
+            c.bad(inst, where, "adjoint data combined with `%s=` into a buffer" % s["op"])
+            continue
+        loops = s["loops"]
+        env = _aliases(facts.root(body))
+        ok, why = False, ""
+        if idx is None:
+            v = var_of(s["lhs"])
+            if len(loops) == 1 and s["outer"] == 0 and v in loops[0]["vars"]:
+                ok, why = True, "store through the element reference of the single enclosing iteration (each element visited once)"
+            else:
+                why = "store through a reference inside %d nested loop(s): elements may be visited more than once" % (len(loops) + s["outer"])
+        else:
+            iv = var_of(idx) if peel(idx).get("k") in ("VarRef", "UpvarRef") else None
+            if iv and len(loops) == 1 and s["outer"] == 0 and iv in loops[0]["vars"] and _range_end(loops[0]["iter"])[1] is not None:
+                ok, why = True, "index is the variable of the single enclosing range loop"
+            elif iv and iv not in [x for l in loops for x in l["vars"]]:
+                ok, why = _unit_counter(iv, facts.root(body), s["lhs"])
+            if not ok:
+                ok2, why2 = _mixed_radix(idx, loops, env) if s["outer"] == 0 else (False, "nested in an outer iteration")
+                if ok2:
+                    ok, why = ok2, why2
+                elif not why:
+                    why = why2
+        if ok:
+            c.ok(inst, where, "plain store of adjoint data with an injective index: %s; %s" % (why, role))
+        else:
+            c.bad(inst, where, "plain store (`=`) of adjoint data at index `%s` which is not provably injective over the loop nest (%s): "
+                  "where the forward operation reads an element more than once, the adjoint must accumulate (`+=`), otherwise all but the "
+                  "last contribution are lost; %s" % (show(idx)[:80] if idx is not None else "*ref", why, role))
+    c.floor("adjoint element-store sites", n, 7)
+    return c
